@@ -7,6 +7,7 @@ import (
 	"go/types"
 	"os"
 	"path/filepath"
+	"regexp"
 	"sort"
 	"strings"
 
@@ -126,6 +127,9 @@ func checkC01(c *Ctx) {
 	checkStreamingFlag(c, gen)
 	c.Rule("C01.R10.conditional-decls", "an identifier of the generated code whose declarations are all conditional is used only under conditions that imply one of them", 5)
 	checkConditionalDecls(c, "C01.R10.conditional-decls", ev, ev.F.Names())
+
+	checkCallSignature(c, "C01.R12.call-signature", ev)
+	checkFoldedPatterns(c, "C01.R13.folded-names", gen)
 
 	// ---- R9 code swallowed by a comment
 	c.Rule("C01.R9.commented-code", "no template text holding Go statement tokens (`:=`, `err != nil`, `if err`, `func (`, `); err`) is lexed inside a comment in any instantiation (whitespace trimming that glues code onto a comment line)", 1)
@@ -389,6 +393,44 @@ func checkReservedWords(c *Ctx, gen *packages.Package) {
 			return true
 		})
 		c.Check(uses, rule, fn+" › consults the reserved set", c.posOf(gen, d.Pos()), "looks the name up in reservedWordsSet (directly or through MangleName)", fn+" no longer consults the reserved-word set")
+		// the word that is looked up is the identifier that is handed out: `_, ok := set[K]; !ok { return R }`
+		// needs K to be R or a normalisation of R — never R a transformation of K (the transformed
+		// spelling is the one that reaches the generated code)
+		ast.Inspect(d.Body, func(n ast.Node) bool {
+			ifs, ok := n.(*ast.IfStmt)
+			if !ok || ifs.Init == nil {
+				return true
+			}
+			as, ok := ifs.Init.(*ast.AssignStmt)
+			if !ok || len(as.Rhs) != 1 {
+				return true
+			}
+			ix, ok := ast.Unparen(as.Rhs[0]).(*ast.IndexExpr)
+			if !ok || goan.LastSel(ix.X) != "reservedWordsSet" {
+				return true
+			}
+			var ret ast.Expr
+			for _, st := range ifs.Body.List {
+				if rs, ok := st.(*ast.ReturnStmt); ok && len(rs.Results) == 1 {
+					ret = rs.Results[0]
+				}
+			}
+			if ret == nil {
+				c.Unk(rule, fn+" › the looked-up word is the returned one", c.posOf(gen, ifs.Pos()), "the lookup is not of the form `if _, ok := set[K]; !ok { return R }`")
+				return true
+			}
+			want := goan.ExprString(ret)
+			contains := false
+			ast.Inspect(ix.Index, func(m ast.Node) bool {
+				if e, ok := m.(ast.Expr); ok && goan.ExprString(e) == want {
+					contains = true
+				}
+				return true
+			})
+			c.Check(contains, rule, fn+" › the looked-up word is the returned one", c.posOf(gen, ifs.Pos()), "key "+goan.ExprString(ix.Index)+" is derived from the returned "+want,
+				"the reserved-word lookup tests "+goan.ExprString(ix.Index)+" but the function hands out "+want+": the spelling that reaches the generated code (e.g. `Type` → `type`) is not the one that was tested")
+			return true
+		})
 	}
 }
 
@@ -707,4 +749,164 @@ func checkStreamingFlag(c *Ctx, gen *packages.Package) {
 		"HasStreamingResponse is never raised from the default response: a streamed default response makes the generated client reader use a `writer` field its struct does not declare")
 	c.Check(len(lists) >= 2, rule, "generator.codeGenOpBuilder.MakeOperation › HasStreamingResponse considers the success responses and every status-code response", c.posOf(gen, fd.Pos()), fmt.Sprintf("raised under tests of %d response lists", len(lists)),
 		fmt.Sprintf("HasStreamingResponse is raised from %d of the 2 response lists (success responses, all status-code responses): a streamed (type: file) response on a code outside the list makes the generated client reader use a `writer` field that its struct does not declare — the client does not compile", len(lists)))
+}
+
+
+// optionalSegments lists, in order of emission, the guards (relative to the guards in force at
+// start) of the conditionally emitted pieces of l.Text[start:end].
+func optionalSegments(l *tmpl.Linear, start, end int) []string {
+	base := len(l.GuardsAt(start))
+	var out []string
+	last := ""
+	for off := start; off < end && off < len(l.Text); off++ {
+		gs := l.GuardsAt(off)
+		sig := ""
+		if len(gs) > base {
+			sig = tmpl.GuardString(gs[base:])
+		}
+		if sig != last {
+			if sig != "" {
+				out = append(out, sig)
+			}
+			last = sig
+		}
+	}
+	return out
+}
+
+// checkCallSignature: the generated client method takes optional parameters (auth writer, stream
+// writer) under view-model flags; its interface entry, its declaration and the call the CLI
+// template emits must list the same optional pieces under the same flags in the same order —
+// otherwise the generated CLI does not compile for the operations that raise two flags.
+func checkCallSignature(c *Ctx, rule string, ev *tmpl.Evaluator) {
+	c.Rule(rule, "the optional parameters of the generated client method are declared (interface, method) and passed (CLI call) under the same flags in the same order", 3)
+	type site struct {
+		what string
+		pos  string
+		segs []string
+	}
+	var sites []site
+	collect := func(what, assetPrefix string, rx *regexp.Regexp) {
+		for _, tn := range ev.F.Names() {
+			l := linearOf(c, ev, tn)
+			if l == nil || !strings.HasPrefix(l.Tree.Asset, assetPrefix) {
+				continue
+			}
+			for _, oc := range l.Find(rx) {
+				open := oc.End - 1
+				args := l.CallArgs(open)
+				sites = append(sites, site{fmt.Sprintf("%s › %s › %s", l.Tree.Asset, tn, what), l.Tree.PosStr(oc.Pos), optionalSegments(l, open, open+len(args)+1)})
+			}
+		}
+	}
+	collect("ClientService interface entry", "client/", regexp.MustCompile(`(?m)^\s*⟦pascalize \.Name⟧\(`))
+	nIface := len(sites)
+	collect("client method", "client/", regexp.MustCompile(`func \(\w+ \*Client\) ⟦pascalize \.Name⟧\(`))
+	nDecl := len(sites) - nIface
+	collect("CLI call", "cli/", regexp.MustCompile(`\.⟦-? ?pascalize \.Package ?⟧\.⟦pascalize \.Name⟧\(`))
+	nCall := len(sites) - nIface - nDecl
+	if nDecl == 0 || nCall == 0 {
+		c.Unk(rule, "client method / CLI call", "", fmt.Sprintf("%d interface entries, %d declarations, %d calls found", nIface, nDecl, nCall))
+		return
+	}
+	var ref *site
+	for i := range sites {
+		if strings.HasSuffix(sites[i].what, "client method") {
+			ref = &sites[i]
+			break
+		}
+	}
+	for _, s := range sites {
+		same := strings.Join(s.segs, " ; ") == strings.Join(ref.segs, " ; ")
+		c.Check(same, rule, s.what, s.pos, "optional pieces: "+strings.Join(s.segs, " ; "),
+			fmt.Sprintf("optional pieces are emitted as [%s] but the client method declares [%s]: for an operation raising both flags the generated code passes the arguments in the wrong positions and does not compile", strings.Join(s.segs, " ; "), strings.Join(ref.segs, " ; ")))
+	}
+}
+
+
+// checkFoldedPatterns: ManglePackageName lower-cases what it is given (swag.ToFileName), so a
+// pattern that classifies a name before it is mangled (the vN → versionN rename) must see the
+// name as it will be written: case-insensitive pattern, or lower-cased argument.
+func checkFoldedPatterns(c *Ctx, rule string, gen *packages.Package) {
+	c.Rule(rule, "a regular expression that classifies a name which the same function then hands to ManglePackageName (lower-casing) is case-insensitive or is applied to the lower-cased name", 1)
+	info := gen.TypesInfo
+	// package-level regexps compiled from a literal
+	lits := map[types.Object]string{}
+	for _, f := range gen.Syntax {
+		for _, d := range f.Decls {
+			gd, ok := d.(*ast.GenDecl)
+			if !ok || gd.Tok != token.VAR {
+				continue
+			}
+			for _, sp := range gd.Specs {
+				vs := sp.(*ast.ValueSpec)
+				for i, nm := range vs.Names {
+					if i >= len(vs.Values) {
+						continue
+					}
+					if call, ok := vs.Values[i].(*ast.CallExpr); ok && len(call.Args) == 1 {
+						if fn := goan.Callee(info, call); fn != nil && goan.CalleeName(fn) == "regexp.MustCompile" {
+							if lit, ok := goan.StringVal(info, call.Args[0]); ok {
+								lits[info.Defs[nm]] = lit
+							}
+						}
+					}
+				}
+			}
+		}
+	}
+	n := 0
+	for _, fd := range load.AllFuncs(gen) {
+		fd := fd
+		// variables handed to ManglePackageName in this function
+		mangled := map[types.Object]bool{}
+		ast.Inspect(fd.Body, func(nd ast.Node) bool {
+			if call, ok := nd.(*ast.CallExpr); ok {
+				if fn := goan.Callee(info, call); fn != nil && fn.Name() == "ManglePackageName" && len(call.Args) > 0 {
+					ast.Inspect(call.Args[0], func(m ast.Node) bool {
+						if id, ok := m.(*ast.Ident); ok {
+							if o := info.Uses[id]; o != nil {
+								mangled[o] = true
+							}
+						}
+						return true
+					})
+				}
+			}
+			return true
+		})
+		if len(mangled) == 0 {
+			continue
+		}
+		ast.Inspect(fd.Body, func(nd ast.Node) bool {
+			call, ok := nd.(*ast.CallExpr)
+			if !ok || len(call.Args) != 1 {
+				return true
+			}
+			se, ok := call.Fun.(*ast.SelectorExpr)
+			if !ok {
+				return true
+			}
+			rid, ok := se.X.(*ast.Ident)
+			if !ok {
+				return true
+			}
+			pat, isRx := lits[info.Uses[rid]]
+			if !isRx {
+				return true
+			}
+			arg, ok := ast.Unparen(call.Args[0]).(*ast.Ident)
+			if !ok || !mangled[info.Uses[arg]] {
+				return true // applied to a derived value (e.g. strings.ToLower(tag)): not this rule's shape
+			}
+			n++
+			hasLetters := regexp.MustCompile(`[A-Za-z]`).MatchString(regexp.MustCompile(`\\.|\(\?[a-z]+\)`).ReplaceAllString(pat, ""))
+			c.Check(!hasLetters || strings.Contains(pat, "(?i)"), rule, fmt.Sprintf("generator.%s › %s applied to %s", load.FuncName(fd), rid.Name, arg.Name), c.posOf(gen, call.Pos()), "pattern "+pat+" is case-insensitive",
+				fmt.Sprintf("pattern %s is case-sensitive but %s is lower-cased by ManglePackageName afterwards: a tag spelled in the other case (V2) escapes the rename and yields the package name the rename exists to avoid (a /vN import path, whose package name goimports does not resolve)", pat, arg.Name))
+			return true
+		})
+	}
+	if n == 0 {
+		c.Unk(rule, "patterns applied before ManglePackageName", "", "no instance found (expected versionedPkgRex in analyzeTags)")
+	}
 }
